@@ -62,7 +62,9 @@ def build_scanner(flex, case, flavour, outdir, flexargs=(), ccvariant="san", rng
     b = Built()
     b.dir = outdir
     if spec_text is None:
-        spec_text = emit.Emitter(case, flavour, rng).spec()
+        em = emit.Emitter(case, flavour, rng)
+        spec_text = em.spec()
+        flexargs = tuple(flexargs) + tuple(getattr(em, "cli_args", ()))
     b.spec = os.path.join(outdir, name + ".l")
     with open(b.spec, "w", encoding="latin1") as f:
         f.write(spec_text)
